@@ -119,8 +119,11 @@ def run_variants(ctx, texts, key='environment-dependent', with_files=True, varia
             ctx.ev()
             ctx.mon(f'environment_variant:{name}')
             if got is None:
-                # the interpreter itself did not come up / crashed: kernpy could not be imported or run at all under this environment
-                ctx.violation(key, f'[{name}] the child interpreter failed: {err}', {'variant': name, 'texts': texts[:1]})
+                if 'Traceback (most recent call last)' in (err or '') and 'watchdog' not in err:
+                    # a Python exception outside the per-text try blocks: kernpy could not be imported or run at all under this environment
+                    ctx.violation(key, f'[{name}] the child interpreter failed: {err}', {'variant': name, 'texts': texts[:1]})
+                else:
+                    ctx.inconc(f'environment child {name} did not finish: {err}')
                 continue
             ctx.mon(f'environment_seen:{name}:hashseed={got.get("hashseed")} encoding={got.get("encoding")} debug={got.get("debug")}')
             for i, (a, b) in enumerate(zip(ref['results'], got['results'])):
